@@ -7,7 +7,7 @@ def run(ctx):
     b = ctx.go_test_binary("containerd-stargz-grpc/db", "h_db", module_dir="cmd")
     if b:
         ctx.correspond(b, "TestVerifC05", "svdriver_c05", "c05",
-                       env={"VERIF_N": 120 if quick else 900}, timeout=1700)
+                       env={"VERIF_N": 120 if quick else 1500}, timeout=1700)
     return ctx.finish(
         level="proof",
         rule="one case = one layer (TOC + blob) opened by memory.NewReader and db.NewReader in a shared bolt "
